@@ -468,8 +468,8 @@ func (g *gen20) metadata(strategy string) *g20 {
 	if r.Chance(50) {
 		l := &g20{kind: 1}
 		for j := 1 + r.Intn(3); j > 0; j-- {
-			k := r.Pick([]string{"app", "tier", "name", "a", "b", "x/y", "version"})
-			if l.get(k) == nil {
+			k := r.Pick([]string{"app", "tier", "name", "a", "b", "x/y", "version", "9000", "on", "yes", "010", "1.5", "true", "no"})
+			if !l.hasKeyClass(k) {
 				l.put(k, g.decorate(g.scalar()))
 			}
 		}
@@ -478,8 +478,9 @@ func (g *gen20) metadata(strategy string) *g20 {
 	if strategy != "" || r.Chance(35) {
 		a := &g20{kind: 1}
 		for j := r.Intn(3); j > 0; j-- {
-			k := r.Pick([]string{"note", "a", "z", "owner", "config.kubernetes.io/local-config", "config.kubernetes.io/path"})
-			if a.get(k) == nil {
+			k := r.Pick([]string{"note", "a", "z", "owner", "config.kubernetes.io/local-config", "config.kubernetes.io/path",
+				"9000", "on", "yes", "1e3", "off"})
+			if !a.hasKeyClass(k) {
 				a.put(k, g.decorate(g.scalar()))
 			}
 		}
@@ -494,12 +495,58 @@ func (g *gen20) metadata(strategy string) *g20 {
 	return m
 }
 
+// keyedList: a list of mappings keyed by [key], at least two elements, never in sorted order.
+// Used for lists the formatter must NOT reorder (initContainers run in sequence, volumes, env, ...).
+func (g *gen20) keyedList(key string, extra func(i int) [][2]string) *g20 {
+	r := g.r
+	names := []string{"zeta", "web", "init-b", "cache", "init-a", "alpha"}
+	n := 2 + r.Intn(3)
+	start := r.Intn(len(names) - n + 1)
+	pick := append([]string{}, names[start:start+n]...) // a descending run ...
+	if r.Chance(40) {                                      // ... sometimes rotated, still not ascending
+		pick = append(pick[1:], pick[0])
+		if n == 2 {
+			pick[0], pick[1] = pick[1], pick[0]
+		}
+	}
+	l := &g20{kind: 2, wide: r.Chance(25)}
+	for i, nm := range pick {
+		e := &g20{kind: 1}
+		e.put(key, g.decorate(sc20(nm)))
+		if extra != nil {
+			for _, kv := range extra(i) {
+				e.put(kv[0], g.decorate(sc20(kv[1])))
+			}
+		}
+		g.shuffle(e)
+		e.vals[0].head = ""
+		l.vals = append(l.vals, g.decorate(e))
+	}
+	return l
+}
+
 func (g *gen20) podSpec() *g20 {
 	r := g.r
 	p := &g20{kind: 1}
 	p.put("containers", g.decorate(g.containers()))
-	if r.Chance(25) {
+	switch {
+	case r.Chance(25):
 		p.put("initContainers", g.decorate(g.containers()))
+	case r.Chance(35):
+		p.put("initContainers", g.decorate(g.keyedList("name", func(i int) [][2]string {
+			return [][2]string{{"image", "busybox"}, {"command", "[sh, -c, \"step" + fmt.Sprint(i) + "\"]"}}
+		})))
+	}
+	if r.Chance(30) {
+		p.put("volumes", g.decorate(g.keyedList("name", func(i int) [][2]string { return [][2]string{{"emptyDir", "{}"}} })))
+	}
+	if r.Chance(20) {
+		p.put("imagePullSecrets", g.decorate(g.keyedList("name", nil)))
+	}
+	if r.Chance(20) {
+		p.put("tolerations", g.decorate(g.keyedList("key", func(i int) [][2]string {
+			return [][2]string{{"operator", "Exists"}, {"effect", "NoSchedule"}}
+		})))
 	}
 	if r.Chance(30) {
 		p.put("restartPolicy", g.decorate(sc20(r.Pick([]string{"Always", "Never"}))))
@@ -743,14 +790,37 @@ func (g *gen20) twinWorkload(kind, api string, custom bool) *g20 {
 	d.put("kind", g.decorate(sc20(kind)))
 	m := &g20{kind: 1}
 	m.put("name", g.decorate(sc20(r.Pick([]string{"foo", "bar", "app-1"}))))
+	// string-valued maps; several keys are plain scalars YAML 1.1 reads as non-strings (port numbers,
+	// booleans): the formatter must leave KEYS alone whatever the schema says about the values
+	keysOf := func(base []string) []string {
+		ks := append([]string{}, base[:1+r.Intn(len(base))]...)
+		amb := []string{"9000", "on", "yes", "010", "1.5", "true", "no", "8080", "off", "1e3"}
+		for j := r.Intn(4); j > 0; j-- {
+			k := r.Pick(amb)
+			dup := false
+			for _, x := range ks {
+				if keyClass20(x) == keyClass20(k) {
+					dup = true
+				}
+			}
+			if !dup {
+				ks = append(ks, k)
+			}
+		}
+		for i := len(ks) - 1; i > 0; i-- {
+			j := r.Intn(i + 1)
+			ks[i], ks[j] = ks[j], ks[i]
+		}
+		return ks
+	}
 	l := &g20{kind: 1}
-	for _, k := range []string{"app", "tier", "enabled"}[:1+r.Intn(3)] {
+	for _, k := range keysOf([]string{"app", "tier", "enabled"}) {
 		l.put(k, str())
 	}
 	m.put("labels", g.decorate(l))
 	if r.Chance(60) {
 		a := &g20{kind: 1}
-		for _, k := range []string{"note", "owner"}[:1+r.Intn(2)] {
+		for _, k := range keysOf([]string{"note", "owner"}) {
 			a.put(k, str())
 		}
 		m.put("annotations", g.decorate(a))
@@ -760,7 +830,7 @@ func (g *gen20) twinWorkload(kind, api string, custom bool) *g20 {
 	switch kind {
 	case "ConfigMap":
 		data := &g20{kind: 1}
-		for _, k := range []string{"a", "b", "flag", "level"}[:1+r.Intn(4)] {
+		for _, k := range keysOf([]string{"a", "b", "flag", "level"}) {
 			data.put(k, str())
 		}
 		d.put("data", g.decorate(data))
@@ -827,6 +897,12 @@ func (g *gen20) twinWorkload(kind, api string, custom bool) *g20 {
 			cs.vals = append(cs.vals, c)
 		}
 		ps.put("containers", g.decorate(cs))
+		if r.Chance(40) {
+			ps.put("initContainers", g.decorate(g.keyedList("name", func(i int) [][2]string { return [][2]string{{"image", "busybox"}} })))
+		}
+		if r.Chance(25) {
+			ps.put("volumes", g.decorate(g.keyedList("name", func(i int) [][2]string { return [][2]string{{"emptyDir", "{}"}} })))
+		}
 		g.shuffle(ps)
 		tmpl := &g20{kind: 1}
 		tmpl.put("spec", ps)
@@ -838,6 +914,39 @@ func (g *gen20) twinWorkload(kind, api string, custom bool) *g20 {
 	return d
 }
 
+// keyClass20: keys that YAML 1.1 reads as the same typed key share a class (one per mapping is generated)
+func keyClass20(k string) string {
+	switch strings.ToLower(strings.Trim(k, "\"'")) {
+	case "on", "yes", "true", "y":
+		return "<true>"
+	case "off", "no", "false", "n":
+		return "<false>"
+	case "1e3", "1000", "1_000":
+		return "<1000>"
+	case "~", "null":
+		return "<null>"
+	}
+	return k
+}
+
+func (m *g20) hasKeyClass(k string) bool {
+	for _, x := range m.keys {
+		if keyClass20(x) == keyClass20(k) {
+			return true
+		}
+	}
+	return false
+}
+
+func inStrs20(s string, l []string) bool {
+	for _, x := range l {
+		if x == s {
+			return true
+		}
+	}
+	return false
+}
+
 // genTwinStream: 2-4 documents of one kind, alternating between the built-in group and a custom group
 // (both orders), always formatted with UseSchema.
 func genTwinStream(r *Rng) case20 {
@@ -845,7 +954,7 @@ func genTwinStream(r *Rng) case20 {
 	g.comments = []int{0, 0, 10}[r.Intn(3)]
 	ka := [][2]string{{"Deployment", "apps/v1"}, {"StatefulSet", "apps/v1"}, {"ConfigMap", "v1"}, {"Service", "v1"},
 		{"Deployment", "apps/v1"}}[r.Intn(5)]
-	n := 2 + r.Intn(3)
+	n := 1 + r.Intn(4)
 	customFirst := r.Bool()
 	docs := []string{}
 	for i := 0; i < n; i++ {
